@@ -361,7 +361,7 @@ func main() {
 		"only common/db LocalDB is driven; the blockchain EventLocal* message path on top of it is not",
 	}
 	r.DistinctSet = "outcomes"
-	depth := r.Pick(6, 8)
+	depth := r.Pick(5, 8)
 	if raw, ok := r.Replaying(); ok {
 		var c struct {
 			Harness string
